@@ -116,6 +116,10 @@ def modes_case_lit(cid, c):
     return f"({cid}%nat, Modes (mkMd {c['n']}%nat {C.nat_list(c['fixed'])} {C.boolc(c['is_nn'])} {C.nat_list(c['observed'])}))"
 
 
+def loop_case_lit(cid, c):
+    return (f"({cid}%nat, Loop (mkLp {c['alg']}%nat {C.boolc(c['abs'])} {C.q(float(c['tol']))} {c['nmax']}%nat {qv(c['tape'])} {c['iters']}%nat))")
+
+
 def first_sweep_modes(cap):
     """modes of the MTTKRP calls of the first sweep, in order (up to the first repetition)"""
     seen = []
@@ -338,9 +342,9 @@ def hals_objective(G, B, V, l1, l2):
 # ----------------------------------------------------------------------------- the runs
 # quick: profiled per kind (CPU s / case at Qops: cp 0.7, hals 0.4, ls 0.5, norm 0.8, reg 1.8, tk 2.5, cmtf 0.7, tkreg 1.9, tr 2.6, spec 0.4, proc 0.2, rep 0.5,
 # tks 4.4, modes 0.02): every kind is kept, the budget is dealt out over the (entry, variant, kind) groups starting at a seed-dependent group
-BUDGET = {"quick": dict(cp=48, hals=20, ls=16, norm=8, reg=4, tk=6, cmtf=5, tkreg=4, tr=5, spec=4, proc=4, rep=8, tks=2, modes=32),
-          "thorough": dict(cp=440, hals=200, ls=180, norm=80, reg=50, tk=60, cmtf=50, tkreg=40, tr=50, spec=60, proc=60, rep=80, tks=20, modes=200)}
-KINDS = ("cp", "hals", "ls", "norm", "reg", "tk", "cmtf", "tkreg", "tr", "spec", "proc", "rep", "tks", "modes")
+BUDGET = {"quick": dict(cp=48, hals=20, ls=16, norm=8, reg=4, tk=6, cmtf=5, tkreg=4, tr=5, spec=4, proc=4, rep=8, tks=2, modes=32, loop=40),
+          "thorough": dict(cp=440, hals=200, ls=180, norm=80, reg=50, tk=60, cmtf=50, tkreg=40, tr=50, spec=60, proc=60, rep=80, tks=20, modes=200, loop=300)}
+KINDS = ("cp", "hals", "ls", "norm", "reg", "tk", "cmtf", "tkreg", "tr", "spec", "proc", "rep", "tks", "modes", "loop")
 
 
 class Ctx:
@@ -353,6 +357,7 @@ class Ctx:
         self.raised, self.judged, self.attempts, self.raised_other = {}, {}, {}, {}
         self.py_blocks = 0
         self.mismatch_notes = 0
+        self.sem = {}          # semantic (dynamic) confirmations per static-tie item: see static_tie
 
     def add_case(self, kind, lit_fn, payload, descr):
         """register a candidate; `select` keeps a budgeted, variant-balanced subset for Coq"""
@@ -365,7 +370,7 @@ class Ctx:
         if not all(finite(v) for v in payload.values()):
             self.skipped_illcond += 1       # exact rationals cannot carry inf / nan: not a case for the model
             return
-        group = (descr["entry"], str(descr["inputs"].get("variant")), descr["inputs"].get("kind"))
+        group = (descr["entry"], str(descr["inputs"].get("variant")), str(descr["inputs"].get("kind")))
         self.cands[kind].append((group, lit_fn, payload, descr))
 
     def select(self):
@@ -398,6 +403,23 @@ class Ctx:
             cid = len(self.cases)
             self.cases.append(lit_fn(cid, payload))
             self.meta.append((kind, descr, payload))
+
+
+def sem(ctx, what, n=1):
+    ctx.sem[what] = ctx.sem.get(what, 0) + n
+
+
+SEM_OF_ENTRY = {"tensorly.decomposition.non_negative_parafac_hals": "non_negative_parafac_hals error formula", "tensorly.decomposition.tucker": "partial_tucker error formula",
+                "tensorly.decomposition.partial_tucker": "partial_tucker error formula", "tensorly.decomposition.tensor_ring_als": "tensor_ring_als error formula"}
+# static-tie item -> (minimum number of dynamic confirmations in this run, entry points, predicates whose findings veto the fallback)
+SEM_RULES = {"parafac error formula": (50, ("tensorly.decomposition.parafac",), ("C07_cp_reported_is_sqerr", "C07_block_refinement")),
+             "non_negative_parafac_hals error formula": (10, ("tensorly.decomposition.non_negative_parafac_hals",), ("C07_reported_error_is_objective",)),
+             "partial_tucker error formula": (10, ("tensorly.decomposition.tucker", "tensorly.decomposition.partial_tucker"), ("C07_reported_error_is_objective", "C07_block_refinement")),
+             "tensor_ring_als error formula": (10, ("tensorly.decomposition.tensor_ring_als",), ("C07_reported_error_is_objective",)),
+             "CMTF error formula": (10, ("tensorly.decomposition.coupled_matrix_tensor_3d_factorization",), ("C07_reported_error_is_objective",)),
+             "parafac line-search acceptance": (10, ("tensorly.decomposition.parafac",), ("C07_history_monotone", "C07_cp_reported_is_sqerr")),
+             "parafac2 line-search acceptance": (10, ("tensorly.decomposition._parafac2._BroThesisLineSearch.line_step", "tensorly.decomposition.parafac2"),
+                                                 ("C07_linesearch_descent", "C07_history_monotone", "C07_reported_error_is_objective"))}
 
 
 def attempt(ctx, entry):
@@ -589,6 +611,7 @@ def reported_is_objective(ctx, entry, inputs, X, iterates, errs):
         wts, fs = iterates[i + 1]
         sq = float(np.sum((X - cp_full(wts, fs)) ** 2))
         ctx.py_blocks += 1
+        sem(ctx, "parafac error formula")
         if not abs(float(e) ** 2 * n2 - sq) <= 1e-8 * (n2 + sq):
             ctx.chk.finding(entry, dict(inputs, iteration=i), f"reported error {float(e)!r} is not the error of the iterate handed to the callback: "
                             f"(reported * ||X||)^2 = {float(e) ** 2 * n2!r}, ||X - [[w; A..]]||^2 = {sq!r}", "C07_cp_reported_is_sqerr",
@@ -640,6 +663,7 @@ def reported_matches(ctx, entry, inputs, errs, objs, tol=1e-6):
     for t, o in enumerate(objs):
         if t < len(errs):
             ctx.py_blocks += 1
+            if entry in SEM_OF_ENTRY: sem(ctx, SEM_OF_ENTRY[entry])
             if not abs(float(errs[t]) - float(o)) <= tol * (1.0 + float(o)):
                 ctx.chk.finding(entry, dict(inputs, sweep=t), f"reported error after sweep {t + 1} is {float(errs[t])!r} but the returned iterate has relative error {float(o)!r}",
                                 "C07_reported_error_is_objective", observed=float(errs[t]), expected=float(o))
@@ -838,6 +862,8 @@ def run_parafac(ctx, n_runs):
             continue
         if lam == 0.0:
             history_check(ctx, entry, inputs, errs)
+            if "linesearch" in variant and len(iterates) == len(errs) + 1:     # line-search iterations whose outcome is judged (history + reported == error of the iterate)
+                sem(ctx, "parafac line-search acceptance", len([i_ for i_ in range(len(errs)) if i_ % 2 == 0 and i_ > 5]))
         elif iterates and "normalize" not in variant:
             penalised_reported_history(ctx, entry, inputs, errs, [cp_objective_rel(X, wts, fs, lam) for (wts, fs) in iterates[1:]], "parafac(l2_reg=%g)" % lam)
         # objective recomputed from the iterates handed to the callback (initial guess first): ||X - [[w; A..]]||^2 (+ the
@@ -1319,6 +1345,7 @@ def run_p2_linestep(ctx, n_runs):
             raised(ctx, entry, out[1]); continue
         e0, e_true, e_rep = out[1]
         ctx.judged[entry] = ctx.judged.get(entry, 0) + 1
+        sem(ctx, "parafac2 line-search acceptance")
         chk.count(key=(entry, I, J, K, rank, step, iteration, nonneg), nontrivial=True)
         chk.hist("linestep", "kept ALS iterate" if abs(e_true - e0) <= 1e-12 else "jump accepted")
         if not abs(e_true - e_rep) <= 1e-9 * (1.0 + abs(e_true)):
@@ -1441,6 +1468,7 @@ def run_cmtf(ctx, n_runs):
                     break
                 val = float(np.sum((X - cp_full(np.ones(rank), Ft)) ** 2) + np.sum((Y - Ft[0] @ Vt_.T) ** 2))
                 ctx.py_blocks += 1
+                sem(ctx, "CMTF error formula")
                 if not abs(val - float(errs[t])) <= 1e-9 * (n2 + val):
                     chk.finding(entry, dict(inputs, sweep=t), f"reported error {float(errs[t])!r} of sweep {t + 1} is not the coupled objective {val!r} of its iterate",
                                 "C07_reported_error_is_objective", observed=float(errs[t]), expected=val)
@@ -1468,6 +1496,21 @@ def run_cmtf(ctx, n_runs):
             if [f.shape[0] for f in F] == list(shape) and Vt.shape == (q, rank) and xnew.shape == F[0].shape:
                 ctx.add_case("cmtf", cmtf_case_lit, dict(X=X, Y=Y, facs=F, V=Vt, rank=rank, xnew=xnew),
                              dict(entry=entry, inputs=dict(inputs, sweep=t, kind="coupled block")))
+            # the V block (the matrix part, C07_cmtf_V_block_minimises): V = lstsq(A_0, Y)' with A_0 the MODEL state - the coupled factor the previous sweep
+            # produced - and Y the coupled matrix (not the design / right-hand side the implementation happened to pass): float predicate on every sweep,
+            # normal equations + descent in exact rationals on one
+            for t in range(1, n_it):
+                A0, recV = cap.lstsq[(t - 1) * per + 3]["X"].T, cap.lstsq[t * per + 0]
+                ctx.py_blocks += 1
+                if recV["A"].shape != A0.shape or recV["Y"].shape != Y.shape or not (np.allclose(recV["A"], A0, rtol=1e-12, atol=0) and np.allclose(recV["Y"], Y, rtol=1e-12, atol=0)):
+                    chk.finding(entry, dict(inputs, sweep=t), "the V block (matrix part) is not the least-squares problem of the coupled matrix against the CURRENT coupled factor",
+                                "C07_cmtf_V_block_minimises")
+                    break
+            t = rng.randrange(1, n_it)
+            A0, recV, prevV = cap.lstsq[(t - 1) * per + 3]["X"].T.copy(), cap.lstsq[t * per + 0], cap.lstsq[(t - 1) * per + 0]
+            if A0.shape == (shape[0], rank) and recV["X"].shape == (rank, q) and prevV["X"].shape == recV["X"].shape:
+                ctx.add_case("ls", ls_case_lit, dict(A=A0, Y=Y, X=recV["X"], prev=prevV["X"], lam=0.0),
+                             dict(entry=entry, inputs=dict(inputs, sweep=t, kind="cmtf V block (model design)")))
             for _ in range(1 if ctx.tier == "quick" else 3):
                 j = rng.randrange(per, len(cap.lstsq))
                 rec, before = cap.lstsq[j], cap.lstsq[j - per]
@@ -1594,30 +1637,205 @@ def run_regressors(ctx, n_runs):
                     ctx.add_case("ls", ls_case_lit, dict(A=A, Y=Ym, X=Xm, prev=Xp, lam=reg), dict(entry=entry, inputs=dict(inputs, block=j)))
 
 
-def static_tie(chk):
+STOP_ALGS = {"parafac": 0, "nn_hals": 0, "tucker": 1, "parafac2": 2, "tr_als": 3, "cmtf": 4, "cpreg": 5, "tkreg": 5}
+
+
+def stop_quantity(alg, abs_crit, a, b):
+    """the quantity the stopping rule of Model/DescentLoop.v compares with tol (a = newest, b = previous value)"""
+    if alg == 0:
+        return abs(b - a) if abs_crit else (b - a)
+    if alg in (1, 2):
+        return abs(b - a)
+    if alg == 3:
+        return b - a
+    if alg == 4:
+        return abs(a - b) / b if b else float("inf")
+    return abs(a - b) / a if a else float("inf")
+
+
+def run_stop_rules(ctx, n_runs):
+    """'from the first sweep to termination': every algorithm of the property run with a tolerance that makes its stopping rule fire in the middle of
+    the run; the values it recorded (reported errors; norms of the weight tensor for the regressors) are replayed through the model's loop + stopping
+    rule (Corr.C07.loop_agree, exact rationals): the model must stop after exactly as many iterations.  Half of the runs use a BOUNDARY tolerance: a first
+    run without stopping gives the trajectory, the tolerance is then set 1e-6 (relative) above / below the quantity the rule compares at a chosen
+    iteration (often the first iteration at which the rule may fire), so that a rule comparing a slightly different quantity, or allowed to fire at another
+    first iteration, stops after a different number of iterations.  The recorded history is judged as for every other run.  Runs in which a compared
+    quantity is within 1e-9 (relative) of the tolerance are skipped and counted (float division vs exact)"""
+    import tensorly as tl
+    from tensorly.decomposition import _cp, _nn_cp, _tucker, _parafac2, _tr_als, _cmtf_als
+    from tensorly.regression.cp_regression import CPRegressor
+    from tensorly.regression.tucker_regression import TuckerRegressor
+    chk, rng = ctx.chk, ctx.rng
+    names = ["parafac", "tucker", "cpreg", "parafac2", "tr_als", "cmtf", "tkreg", "nn_hals"]
+    min_it = {0: 1, 1: 2, 2: 1, 3: 1, 4: 1, 5: 2}
+    for it in range(n_runs):
+        name = names[it % len(names)]
+        alg = STOP_ALGS[name]
+        r = np_rng(rng)
+        tol = rng.choice([1e-2, 3e-3, 1e-3, 1e-4]) if it % 11 != 10 else 0.0       # tol = 0: `if tol:` switches the test off (parafac, tucker, parafac2, tr)
+        nmax = rng.choice([6, 12, 25])
+        abs_crit = True
+        seed = r.randint(1 << 30)
+        opts, Y = {}, None
+        if name == "parafac":
+            shape, rank = rng.choice([(4, 3, 3), (5, 4), (3, 3, 2, 2)]), 2
+            X = lowrank(r, shape, rank, rng.choice([0.05, 0.3]))
+            abs_crit = rng.random() < 0.5
+            opts = dict(cvg_criterion="abs_rec_error" if abs_crit else "rec_error", linesearch=rng.random() < 0.3)
+            entry = "tensorly.decomposition.parafac"
+
+            def call(tol_, nmax_):
+                o = C.call_impl(_cp.parafac, X.copy(), rank, init="random", random_state=seed, return_errors=True, tol=tol_, n_iter_max=nmax_, **opts)
+                return o if o[0] != "ok" else ("ok", [float(e) for e in o[1][1]], None)
+        elif name == "nn_hals":
+            shape, rank = rng.choice([(4, 3, 3), (5, 4)]), 2
+            X = lowrank(r, shape, rank, 0.1, nonneg=True)
+            abs_crit = rng.random() < 0.5
+            opts = dict(cvg_criterion="abs_rec_error" if abs_crit else "rec_error")
+            entry = "tensorly.decomposition.non_negative_parafac_hals"
+
+            def call(tol_, nmax_):
+                o = C.call_impl(_nn_cp.non_negative_parafac_hals, X.copy(), rank, init="random", random_state=seed, return_errors=True, tol=tol_, n_iter_max=nmax_, **opts)
+                return o if o[0] != "ok" else ("ok", [float(e) for e in o[1][1]], None)
+        elif name == "tucker":
+            shape = rng.choice([(4, 4, 3), (5, 4, 4)])
+            X = lowrank(r, shape, 2, 0.3) + 0.3 * r.randn(*shape)
+            opts = dict(init=rng.choice(["svd", "random"]))
+            entry = "tensorly.decomposition.tucker"
+
+            def call(tol_, nmax_):
+                o = C.call_impl(_tucker.tucker, X.copy(), rank=[2, 2, 2], random_state=seed, return_errors=True, tol=tol_, n_iter_max=nmax_, **opts)
+                return o if o[0] != "ok" else ("ok", [float(e) for e in o[1][1]], None)
+        elif name == "parafac2":
+            X = p2_active_problem(r, 4, 5, 4, 2, 0.3)
+            opts = dict(linesearch=rng.random() < 0.5)
+            entry = "tensorly.decomposition.parafac2"
+
+            def call(tol_, nmax_):
+                o = C.call_impl(_parafac2.parafac2, [s_.copy() for s_ in X], 2, init="random", random_state=seed, return_errors=True, timeout=60, tol=tol_, n_iter_max=nmax_, **opts)
+                return o if o[0] != "ok" else ("ok", [float(e) for e in o[1][1]], None)
+        elif name == "tr_als":
+            shape = rng.choice([(3, 3, 3), (4, 3, 2)])
+            X = r.randn(*shape)
+            opts = dict(ls_solve=rng.choice(["lstsq", "normal_eq"]))
+            entry = "tensorly.decomposition.tensor_ring_als"
+
+            def call(tol_, nmax_):
+                errs = []
+                o = C.call_impl(_tr_als.tensor_ring_als, X.copy(), 2, random_state=seed, callback=lambda tr, e: errs.append(float(e)) and None, tol=tol_, n_iter_max=nmax_, **opts)
+                return o if o[0] != "ok" else ("ok", errs[1:], None)      # the callback sees the initial guess first; rec_errors starts with the first sweep
+        elif name == "cmtf":
+            shape, q_ = rng.choice([(3, 3, 2), (4, 3, 3)]), 3
+            w0, f0 = rand_cp_init(r, shape, 2)
+            X = cp_full(w0, f0) + 0.3 * r.randn(*shape)
+            Y = f0[0] @ r.randn(2, q_) + 0.1 * r.randn(shape[0], q_)
+            entry = "tensorly.decomposition.coupled_matrix_tensor_3d_factorization"
+
+            def call(tol_, nmax_):
+                np.random.seed(seed)
+                o = C.call_impl(_cmtf_als.coupled_matrix_tensor_3d_factorization, X.copy(), Y.copy(), 2, init="random", tol=tol_, n_iter_max=nmax_)
+                return o if o[0] != "ok" else ("ok", [float(e) for e in o[1][2]], None)
+        else:
+            dims = rng.choice([(3, 2), (2, 2, 2)])
+            X = r.randn(12, *dims)
+            y = np.tensordot(X, r.randn(*dims), axes=len(dims)) + 0.1 * r.randn(12)
+            reg = rng.choice([0.5, 1.0])
+            opts = dict(reg_W=reg)
+            cls = CPRegressor if name == "cpreg" else TuckerRegressor
+            entry = "tensorly.regression." + cls.__name__ + ".fit"
+
+            def call(tol_, nmax_):
+                est = cls(2 if name == "cpreg" else [2] * len(dims), tol=tol_, reg_W=reg, n_iter_max=nmax_, random_state=seed, verbose=0)
+                o = C.call_impl(est.fit, X.copy(), y.copy())
+                return o if o[0] != "ok" else ("ok", [float(v) for v in est.norm_W_], int(est.n_iterations_))
+        boundary = None
+        if (it + it // len(names)) % 2 == 1:
+            # boundary tolerance from the trajectory of a run that does not stop
+            o0 = call(1e-300, nmax)
+            if o0[0] == "ok" and len(o0[1]) == nmax and all(math.isfinite(v) for v in o0[1]):
+                lo = min_it[alg]
+                i_ = lo if (rng.random() < 0.4 or lo + 1 >= nmax) else rng.randrange(lo, nmax)
+                if 1 <= i_ < nmax:
+                    q0 = stop_quantity(alg, abs_crit, o0[1][i_], o0[1][i_ - 1])
+                    if math.isfinite(q0) and q0 > 1e-12:
+                        sgn = rng.choice([1.0, -1.0])
+                        tol = q0 * (1.0 + sgn * 1e-6); boundary = (i_, sgn)
+        attempt(ctx, entry)
+        out = call(tol, nmax)
+        chk.hist("algorithm", "stopping rule:" + name)
+        if out[0] != "ok":
+            raised(ctx, entry, out[1]); continue
+        tape = out[1]
+        iters = len(tape) if out[2] is None else out[2]
+        inputs = dict(variant="stopping rule", algorithm=name, data=X, matrix=Y, options=dict(opts, tol=tol, n_iter_max=nmax, random_state=seed), recorded=tape, iterations=iters,
+                      boundary=boundary)
+        ctx.judged[entry] = ctx.judged.get(entry, 0) + 1
+        if not tape or not all(math.isfinite(v) for v in tape):
+            ctx.skipped_illcond += 1; continue
+        # the recorded history itself (the regressors record norms of the weight tensor: not a descending quantity)
+        if alg != 5:
+            vals = tape if alg != 4 else [math.sqrt(max(e, 0.0) / (float(np.sum(X ** 2)) + float(np.sum(Y ** 2)))) for e in tape]
+            history_check(ctx, entry, inputs, vals, what="error history of a run ended by its stopping rule")
+        chk.count(key=("stopping rule", name, tol, nmax, iters), nontrivial=iters < nmax)
+        chk.hist("stopping rule", name + (": fired" if iters < nmax else ": n_iter_max reached") + (" (boundary tolerance)" if boundary else ""))
+        border = any(abs(stop_quantity(alg, abs_crit, tape[i], tape[i - 1]) - tol) <= 1e-9 * max(tol, 1e-300) for i in range(1, len(tape))) or \
+            (alg == 4 and any(abs(v - tol) <= 1e-9 * tol for v in tape)) or any(v == 0.0 for v in tape)
+        if border:
+            ctx.skipped_illcond += 1; continue
+        ctx.add_case("loop", loop_case_lit, dict(alg=alg, abs=abs_crit, tol=tol, nmax=nmax, tape=tape, iters=iters),
+                     dict(entry=entry, inputs=dict(inputs, kind="outer loop + stopping rule" + (" (boundary)" if boundary else ""))))
+
+
+def static_tie(chk, ctx=None):
     """corr:C07-static: the reported-error formulas and the line-search acceptance tests are re-extracted from the CURRENT sources (ast),
-    translated to Gallina and the linking theorems re-checked by coqc against the regenerated terms; fail closed"""
+    translated to Gallina and the linking theorems re-checked by coqc against the regenerated terms.
+    SEMANTIC FALLBACK: an item whose source form is not recognised (or whose regenerated goal is not closed by ring / field / lra) is not an alarm by
+    itself - an equivalent rewrite looks like that.  It is then decided by the dynamic predicates that judge the SAME quantity on the implementation in
+    this very run ('the reported error is the error of the reported iterate', the judged line-search decisions): at least SEM_RULES[item][0] such
+    comparisons were made and none failed -> a note (cov.static_tie.semantic_fallback); otherwise, or if they did not run, a broken tie (fail closed)"""
     import os, shutil, subprocess
     from harness.props import C07_ast as C07ast
     lines, info, bad = C07ast.extract(C.REPO)
-    for b in bad:
-        chk.broken.append({"what": "corr:C07-static broken tie (source construct not translatable / changed)", "detail": b})
     d = os.path.join(C.BUILD, "cases", "C07", f"static_{os.getpid()}")
     shutil.rmtree(d, ignore_errors=True); os.makedirs(d, exist_ok=True)
-    fn = os.path.join(d, "Static.v")
-    with open(fn, "w") as f:
-        f.write(C07ast.coq_file(lines, info))
-    p = subprocess.run(["timeout", "300", "coqc", "-w", "none", "-R", os.path.join(C.COQ, "theories"), "TLV", fn], capture_output=True, text=True, cwd=d)
+
+    def coqc(name, keys):
+        fn = os.path.join(d, name)
+        with open(fn, "w") as f:
+            f.write(C07ast.coq_file(lines, {k: info[k] for k in keys}))
+        return subprocess.run(["timeout", "300", "coqc", "-w", "none", "-R", os.path.join(C.COQ, "theories"), "TLV", fn], capture_output=True, text=True, cwd=d)
+    p = coqc("Static.v", list(info))
     chk.checker_cmds.append("coqc on generated build/cases/C07/static_*/Static.v: formulas regenerated from the Python sources by harness/props/C07_ast.py")
-    chk.cov["static_tie"] = dict(extracted=info, untranslatable=bad, coqc_rc=p.returncode)
+    failed = []          # (item, detail): items whose regenerated goal does not hold syntactically
     if p.returncode != 0:
-        chk.broken.append({"what": "corr:C07-static: a theorem does not hold for the formula regenerated from the current source", "detail": (p.stderr or p.stdout)[-1500:]})
+        for k in info:      # which item(s)?  one file per item (only on this path)
+            pk = coqc(f"Static_{k}.v", [k])
+            if pk.returncode != 0:
+                failed.append((C07ast.ITEM_OF.get(k, k), "the theorem is not closed for the formula regenerated from the current source: " + (pk.stderr or pk.stdout)[-600:]))
+        if not failed:
+            failed.append(("?", (p.stderr or p.stdout)[-1200:]))
+    for b in bad:
+        parts = b.split(": ", 1)
+        failed.append((parts[0][len("ast:"):] if parts[0].startswith("ast:") else "?", b))
+    fallback = []
+    for what, detail in failed:
+        rule = SEM_RULES.get(what)
+        n_sem = ctx.sem.get(what, 0) if ctx is not None else 0
+        veto = [f for f in chk.findings if rule and f.get("entry_point") in rule[1] and f.get("predicate") in rule[2]]
+        if rule and n_sem >= rule[0] and not veto:
+            fallback.append(dict(item=what, dynamic_confirmations=n_sem, syntactic_detail=detail[:300]))
+            chk.notes.append(f"corr:C07-static: source form of '{what}' not recognised / not closed syntactically; decided by the semantic fallback "
+                             f"({n_sem} dynamic comparisons of the same quantity in this run, none failed): {detail[:160]}")
+        else:
+            chk.broken.append({"what": "corr:C07-static broken tie (source construct not translatable / changed, and not confirmed by the semantic fallback: "
+                                       f"{n_sem} dynamic comparisons, {len(veto)} failing)", "detail": detail})
+    chk.cov["static_tie"] = dict(extracted=info, untranslatable=bad, coqc_rc=p.returncode, semantic_fallback=fallback)
 
 
 def PLAN(quick):
     return [(run_corpus, 0), (run_parafac, 80 if quick else 400), (run_fixed_modes, 12 if quick else 36), (run_nn_hals, 18 if quick else 120), (run_hals_nnls, 36 if quick else 300),
             (run_tucker, 18 if quick else 120), (run_tucker_svd, 6 if quick else 24), (run_parafac2, 16 if quick else 72), (run_p2_linestep, 30 if quick else 120), (run_tr_als, 12 if quick else 80),
-            (run_cmtf, 12 if quick else 80), (run_regressors, 12 if quick else 60)]
+            (run_cmtf, 12 if quick else 80), (run_regressors, 12 if quick else 60), (run_stop_rules, 40 if quick else 240)]
 
 
 def run(chk):
@@ -1633,12 +1851,12 @@ def run(chk):
     for fn, n in PLAN(quick):
         fn(ctx, n)
     ctx.select()
-    static_tie(chk)
+    static_tie(chk, ctx)
     failing, n_eval, broken = C.run_case_shards("C07", HEADER, "case", ctx.cases, shard=ctx.shard_size, timeout=900)
     chk.checker_cmds.append("coqc (vm_compute, Qops) on generated build/cases/C07/*.v: Corr.C07.failing")
     chk.cov["traces_validated_against_impl"] = n_eval
     chk.cov["exhaustive"] = False
-    chk.cov["block_cases"] = dict(cp_blocks=ctx.n_cp, hals_chains=ctx.n_hals, ls_blocks=ctx.n_ls, normalisations=ctx.n_norm, regressor_blocks=ctx.n_reg, hooi_blocks=ctx.n_kind.get("tk", 0), cmtf_coupled_blocks=ctx.n_kind.get("cmtf", 0), tucker_regressor_blocks=ctx.n_kind.get("tkreg", 0), tensor_ring_blocks=ctx.n_kind.get("tr", 0), hooi_spectral_certificates=ctx.n_kind.get("spec", 0), parafac2_procrustes_certificates=ctx.n_kind.get("proc", 0), reported_error_cases=ctx.n_kind.get("rep", 0), hooi_whole_sweeps=ctx.n_kind.get("tks", 0), updated_modes_cases=ctx.n_kind.get("modes", 0), float_block_predicates=ctx.py_blocks,
+    chk.cov["block_cases"] = dict(cp_blocks=ctx.n_cp, hals_chains=ctx.n_hals, ls_blocks=ctx.n_ls, normalisations=ctx.n_norm, regressor_blocks=ctx.n_reg, hooi_blocks=ctx.n_kind.get("tk", 0), cmtf_coupled_blocks=ctx.n_kind.get("cmtf", 0), tucker_regressor_blocks=ctx.n_kind.get("tkreg", 0), tensor_ring_blocks=ctx.n_kind.get("tr", 0), hooi_spectral_certificates=ctx.n_kind.get("spec", 0), parafac2_procrustes_certificates=ctx.n_kind.get("proc", 0), reported_error_cases=ctx.n_kind.get("rep", 0), hooi_whole_sweeps=ctx.n_kind.get("tks", 0), updated_modes_cases=ctx.n_kind.get("modes", 0), stopping_rule_replays=ctx.n_kind.get("loop", 0), float_block_predicates=ctx.py_blocks,
                                   candidates={k: len(v) for k, v in ctx.cands.items()})
     chk.cov["skipped_ill_conditioned"] = ctx.skipped_illcond
     chk.cov["rule"] = ("seeded well-conditioned problems (low rank + noise; dense / nearly collinear ones for the line search), orders 2-4, rank 1-3: every algorithm "
@@ -1662,9 +1880,13 @@ def run(chk):
         chk.disagreement(f"corr:C07 {kind} block (Model/Descent.v vs {descr['entry']})", dict(kind=kind, **descr))
         # turn the disagreement into a failing input: the run whose captured block disagrees with the model
         inp = dict(descr["inputs"]); inp["block_kind"] = kind
-        for k in ("G", "B", "A", "Y", "X", "M", "xnew", "w", "facs", "iterates", "mode", "lam", "prev", "l1", "l2", "eps", "tape", "w_impl", "facs_impl", "Xs", "ys", "reg", "rs", "before", "after", "core", "V", "Us", "newcore", "newfac", "cores", "dim", "new", "design", "Q", "lam", "U", "P", "sg", "rel", "k", "rank", "states", "fixed", "observed"):
+        for k in ("G", "B", "A", "Y", "X", "M", "xnew", "w", "facs", "iterates", "mode", "lam", "prev", "l1", "l2", "eps", "tape", "w_impl", "facs_impl", "Xs", "ys", "reg", "rs", "before", "after", "core", "V", "Us", "newcore", "newfac", "cores", "dim", "new", "design", "Q", "lam", "U", "P", "sg", "rel", "k", "rank", "states", "fixed", "observed", "alg", "tol", "nmax", "tape", "iters"):
             if k in payload and k not in inp:
                 inp["block_" + k] = payload[k]
+        if kind == "loop":
+            chk.finding(descr["entry"], inp, f"the run stopped after {payload['iters']} iteration(s), but the stopping rule of Model/DescentLoop.v replayed on the values it recorded "
+                        f"(tol = {payload['tol']!r}, n_iter_max = {payload['nmax']}) stops after a different number of iterations", "C07_loop_tape_replay")
+            continue
         chk.finding(descr["entry"], inp, f"{kind} block: the implementation's block state disagrees with the exact model block "
                     "(system mismatch, solve certificate violated, next iterate / normalised state differs or exact objective increases)", "C07_block_refinement")
     chk.assumptions = ["block problems well conditioned (condition number of every solved system <= 1e4 on the generated inputs; others skipped and counted)",
